@@ -15,6 +15,8 @@
 //!   [7, n, graceful]       stop node n (graceful=1: drop, which persists the hard state; 0: kill, nothing persisted) and restart it from its storage
 //!   [8, n]                 same-term step-down of n (the internal event a leader sends itself on noop timeout / self removal)
 //!   [9, n, durable]        let n process its pending internal events (LogFlushed, AppendResult, ...)
+//!   [14, n]                flush n's log WITHOUT letting n process anything: the LogFlushed event of the IO thread stays
+//!                          queued in front of whatever the next label makes n queue (the IO thread is asynchronous to the Raft loop)
 //! Output per label: [[role, term, commit, [vote_id, vote_term] | [], [[idx, term, pl]...], [leader, term] | []] per node, event_result]
 use crate::sim::*;
 use async_trait::async_trait;
@@ -466,6 +468,13 @@ pub fn run(rt: &tokio::runtime::Runtime, case: Value) -> Value {
                         tokio::time::sleep(std::time::Duration::from_millis(12)).await;
                         let _ = nodes[ai].raft.as_mut().unwrap().verif_tick().await;
                         settle(&mut nodes[ai]).await;
+                    }
+                }
+                14 => {
+                    let ai = (a - 1) as usize;
+                    nodes[ai].log.flush().await.ok();
+                    for _ in 0..8 {
+                        tokio::task::yield_now().await;
                     }
                 }
                 _ => {
